@@ -19,9 +19,14 @@ import (
 //
 // Asserted (each clause is the statement of C19 read at process level):
 //   - "requests in flight when the signal arrives are allowed to finish": a request that has
-//     reached the backend (before the backend answered, or after the client has read the first part
-//     of the body) and whose remaining duration is at least 1 s below timeouts.shutdown is received
-//     by the client complete: scripted status, scripted body, no read error;
+//     reached the backend (before the backend answered, after the client has read the response head,
+//     or after it has read the first part of the body) and whose remaining duration is at least 1 s
+//     below timeouts.shutdown is received by the client complete: scripted status, scripted body, no
+//     read error. The statement makes no exception for any kind of request or response, so what the
+//     exchange looks like is drawn: media type of the response (documents, downloads, and the types
+//     that announce an event / record / frame stream), its framing (Content-Length, chunked,
+//     close-delimited), the number of writes its body arrives in, accompanying response fields,
+//     and the request (bare GET, EventSource GET, API GET, body-less POST);
 //   - "shutdown always completes within the configured shutdown timeout": the process has exited
 //     timeouts.shutdown + 2 s after the signal at the latest (normal: milliseconds after the last
 //     request finished) - also when a health probe hangs in the backend (probe timeout up to 9 s,
@@ -44,13 +49,22 @@ const l3Name = "signal-at-request-point"
 const stepBudget = 5 * time.Second
 
 type l3Case struct {
-	ShutdownS  int    `json:"shutdown_s"`
+	ShutdownS int `json:"shutdown_s"`
 	// ShutdownOmitted: server.timeouts.shutdown is left out of the file (documented default 30 s; ShutdownS is 30 then)
-	ShutdownOmitted bool `json:"shutdown_omitted,omitempty"`
-	Signal     string `json:"signal"` // TERM | INT
-	Point      string `json:"point"`  // before-answer | mid-body | idle | half-sent-head (the client has sent the request line and one header field; the rest of the head follows ReleaseMs after the signal; the backend answers at once)
-	Status     int    `json:"status,omitempty"`
-	Framing    string `json:"framing,omitempty"` // cl | chunked
+	ShutdownOmitted bool   `json:"shutdown_omitted,omitempty"`
+	Signal          string `json:"signal"` // TERM | INT
+	Point           string `json:"point"`  // before-answer | mid-body | after-head | idle | half-sent-head (the client has sent the request line and one header field; the rest of the head follows ReleaseMs after the signal; the backend answers at once); after-head: the client has read the response head, the backend has not produced a body byte yet (a quiet stream / long poll)
+	Status          int    `json:"status,omitempty"`
+	Framing         string `json:"framing,omitempty"` // cl | chunked | close (no framing header: the backend ends the body by closing its connection)
+	// What the in-flight exchange looks like (none of it is anything the statement lets a shutdown depend on):
+	// CType: Content-Type of the response ("" = application/octet-stream, "none" = no such field);
+	// RespDress: further response fields a service of that kind sends (respDress); Pieces: number of separate
+	// writes (events / records / frames) the backend sends the second body part in; Request: what the client's
+	// request looks like (requestKinds).
+	CType      string `json:"content_type,omitempty"`
+	RespDress  string `json:"response_dress,omitempty"`
+	Pieces     int    `json:"part2_pieces,omitempty"`
+	Request    string `json:"request,omitempty"`
 	Part1      int    `json:"part1,omitempty"`
 	Part2      int    `json:"part2,omitempty"`
 	ReadFirst  int    `json:"client_read_before_signal,omitempty"` // mid-body: bytes of part 1 the client has read when the signal is sent
@@ -91,18 +105,81 @@ func halfSent(c l3Case) <-chan struct{} {
 	return ch
 }
 
+// Media types of in-flight responses. The first group are ordinary documents and downloads; the second
+// group announce a response that is produced piece by piece over its lifetime (event streams, record
+// streams, frame streams, media segments) - finite all the same: the scripted backend finishes every one.
+var plainTypes = []string{"", "none", "text/plain; charset=utf-8", "application/json", "text/html; charset=utf-8", "image/jpeg", "application/pdf"}
+var streamTypes = []string{"text/event-stream", "text/event-stream", "text/event-stream; charset=utf-8", "text/event-stream;charset=UTF-8", "application/x-ndjson", "application/stream+json",
+	"application/grpc-web+proto", "multipart/x-mixed-replace; boundary=frame", "video/mp2t"}
+
+// streamTyped: the response's media type announces a stream.
+func streamTyped(ct string) bool {
+	for _, s := range streamTypes {
+		if s == ct {
+			return true
+		}
+	}
+	return false
+}
+
+// respDress: further end-to-end response fields by kind of service.
+var respDress = map[string][]lab.KV{
+	"":           nil,
+	"no-cache":   {{K: "Cache-Control", V: "no-cache"}},
+	"sse-hints":  {{K: "Cache-Control", V: "no-cache, no-transform"}, {K: "X-Accel-Buffering", V: "no"}},
+	"download":   {{K: "Content-Disposition", V: "attachment; filename=\"export.csv\""}, {K: "Accept-Ranges", V: "none"}},
+	"cookie":     {{K: "Set-Cookie", V: "sid=abc123; Path=/; HttpOnly"}, {K: "Vary", V: "Accept"}},
+	"long-cache": {{K: "Cache-Control", V: "public, max-age=31536000, immutable"}, {K: "ETag", V: "\"v1-5d41402a\""}},
+}
+var respDressNames = []string{"", "", "no-cache", "sse-hints", "download", "cookie", "long-cache"}
+
+// requestKinds: "" = a bare GET; event-source = what a browser's EventSource sends; fetch-json = an API
+// call; post-empty = a POST that starts a job or a generation and carries no body (Content-Length: 0).
+// Requests WITH a body are kept out: the open finding C01/request-body-close-race (net/http, not Helios:
+// the server closes the inbound request body at the first response write while the transport may still
+// be reading it) occasionally truncates the response of such an exchange with no shutdown anywhere near.
+var requestKinds = []string{"", "", "event-source", "event-source", "fetch-json", "post-empty"}
+
+// request renders the client's request: method, the header fields after Host and X-Verif-Case, the body.
+func (c l3Case) request() (method string, extra []lab.KV, body []byte) {
+	switch c.Request {
+	case "event-source":
+		return "GET", []lab.KV{{K: "Accept", V: "text/event-stream"}, {K: "Cache-Control", V: "no-cache"}, {K: "Last-Event-ID", V: "17"}}, nil
+	case "fetch-json":
+		return "GET", []lab.KV{{K: "Accept", V: "application/json, */*;q=0.1"}, {K: "Accept-Encoding", V: "identity"}}, nil
+	case "post-empty":
+		return "POST", []lab.KV{{K: "Accept", V: "text/event-stream, application/json"}}, []byte{}
+	}
+	return "GET", nil, nil
+}
+
 func genL3(rt *rapid.T) l3Case {
 	c := l3Case{ShutdownS: rapid.IntRange(2, 4).Draw(rt, "shutdown"), Signal: rapid.SampledFrom([]string{"TERM", "INT"}).Draw(rt, "signal"),
-		Point: rapid.SampledFrom([]string{"before-answer", "before-answer", "mid-body", "mid-body", "idle", "half-sent-head", "half-sent-head"}).Draw(rt, "point")}
+		Point: rapid.SampledFrom([]string{"before-answer", "before-answer", "mid-body", "mid-body", "after-head", "idle", "half-sent-head", "half-sent-head"}).Draw(rt, "point")}
 	if c.Point != "idle" {
 		c.Status = rapid.SampledFrom([]int{200, 200, 201, 404}).Draw(rt, "status")
-		c.Framing = rapid.SampledFrom([]string{"cl", "chunked"}).Draw(rt, "framing")
+		c.Framing = rapid.SampledFrom([]string{"cl", "chunked", "close"}).Draw(rt, "framing")
+		if c.Point == "after-head" {
+			// a proxy must pass a response head on before the body exists only if it cannot know how long the
+			// body will be; with a Content-Length it may keep the head in its buffers
+			c.Framing = rapid.SampledFrom([]string{"chunked", "close"}).Draw(rt, "framing_after_head")
+		}
+		if rapid.Bool().Draw(rt, "stream_typed") {
+			c.CType = rapid.SampledFrom(streamTypes).Draw(rt, "content_type")
+		} else {
+			c.CType = rapid.SampledFrom(plainTypes).Draw(rt, "content_type")
+		}
+		c.RespDress = rapid.SampledFrom(respDressNames).Draw(rt, "response_dress")
+		c.Request = rapid.SampledFrom(requestKinds).Draw(rt, "request")
+		c.Pieces = rapid.SampledFrom([]int{1, 1, 2, 5}).Draw(rt, "part2_pieces")
 		c.Part1 = rapid.SampledFrom([]int{1, 100, 4096, 32768}).Draw(rt, "part1")
 		c.Part2 = rapid.SampledFrom([]int{1, 1000, 32769, 200000}).Draw(rt, "part2")
 		if c.Point == "mid-body" {
 			// the proxy may legitimately keep the tail of what the backend has sent so far in its
 			// response buffers (net/http: 2 KiB + 4 KiB) unless the response is chunked (then every
 			// write is flushed through); the client waits only for bytes that must have been passed on
+			// (a close-delimited backend response has no known length either: the proxy re-frames it
+			// chunked towards the client)
 			c.ReadFirst = c.Part1
 			if c.Framing == "cl" {
 				c.Part1 = rapid.SampledFrom([]int{16384, 32768, 65536}).Draw(rt, "part1_cl")
@@ -243,6 +320,61 @@ func (c l3Case) yaml(port, metricsPort, adminPort int, backendURL string) string
 	return b.String()
 }
 
+// parts: the write partition of the scripted body: part 1, then part 2 in Pieces separate writes.
+func (c l3Case) parts() []int {
+	parts := []int{c.Part1}
+	k := max(1, min(c.Pieces, c.Part2))
+	for i := 0; i < k; i++ {
+		n := c.Part2 / k
+		if i == k-1 {
+			n = c.Part2 - (k-1)*(c.Part2/k)
+		}
+		parts = append(parts, n)
+	}
+	return parts
+}
+
+// responseHeader: the end-to-end fields of the scripted response.
+func (c l3Case) responseHeader() []lab.KV {
+	var h []lab.KV
+	switch c.CType {
+	case "":
+		h = append(h, lab.KV{K: "Content-Type", V: "application/octet-stream"})
+	case "none":
+	default:
+		h = append(h, lab.KV{K: "Content-Type", V: c.CType})
+	}
+	return append(h, respDress[c.RespDress]...)
+}
+
+// responseText / requestText describe the exchange in a violation message.
+func (c l3Case) responseText() string {
+	ct := "no Content-Type"
+	if h := c.responseHeader(); len(h) > 0 && h[0].K == "Content-Type" {
+		ct = "Content-Type " + h[0].V
+	}
+	return fmt.Sprintf("%d, %s, %s framing, body %d B + %d B in %d write(s)", c.Status, ct, c.Framing, c.Part1, c.Part2, len(c.parts())-1)
+}
+
+func (c l3Case) requestKind() string {
+	if c.Request == "" {
+		return "bare-get"
+	}
+	return c.Request
+}
+
+func (c l3Case) requestText() string {
+	m, extra, body := c.request()
+	s := m
+	for _, kv := range extra {
+		s += fmt.Sprintf(" %s: %s;", kv.K, kv.V)
+	}
+	if body != nil {
+		s += fmt.Sprintf(" %d B body", len(body))
+	}
+	return s
+}
+
 func sigOf(s string) syscall.Signal {
 	if s == "INT" {
 		return syscall.SIGINT
@@ -340,13 +472,14 @@ func runL3(t testing.TB, c l3Case) (r l3Result) {
 	readDone := make(chan string, 1) // client's verdict on the response ("" = complete and exact)
 	if c.Point != "idle" {
 		id := fmt.Sprintf("c19-%d", l3Seq.Add(1))
-		script := &lab.RespScript{Status: c.Status, Framing: c.Framing, Body: body, BodyLen: len(body), Parts: []int{c.Part1, c.Part2}, BarrierAfter: -1,
-			Header: []lab.KV{{K: "Content-Type", V: "application/octet-stream"}}}
+		script := &lab.RespScript{Status: c.Status, Framing: c.Framing, Body: body, BodyLen: len(body), Parts: c.parts(), BarrierAfter: -1, Header: c.responseHeader()}
 		switch c.Point {
 		case "before-answer":
 			script.Hold = true
 		case "mid-body":
 			script.BarrierAfter = 0
+		case "after-head":
+			script.BarrierAfterHead = true
 		}
 		ex = be.Expect(id, script)
 		cc, err = lab.Dial(addr)
@@ -355,26 +488,38 @@ func runL3(t testing.TB, c l3Case) (r l3Result) {
 			return
 		}
 		defer cc.Close()
-		req := &lab.RawRequest{Method: "GET", Target: "/c19/" + id, Framing: "none", Header: []lab.KV{{K: "Host", V: "helios.test"}, {K: "X-Verif-Case", V: id}}}
+		method, extra, reqBody := c.request()
+		req := &lab.RawRequest{Method: method, Target: "/c19/" + id, Framing: "none", Header: append([]lab.KV{{K: "Host", V: "helios.test"}, {K: "X-Verif-Case", V: id}}, extra...)}
+		if reqBody != nil {
+			req.Framing, req.Body, req.BodyLen = "cl", reqBody, len(reqBody)
+		}
 		if c.Point == "half-sent-head" {
 			// only the beginning of the head is on the wire when the signal is sent
-			if _, err := cc.C.Write([]byte("GET /c19/" + id + " HTTP/1.1\r\nHost: helios.test\r\n")); err != nil {
+			if _, err := cc.C.Write([]byte(method + " /c19/" + id + " HTTP/1.1\r\nHost: helios.test\r\n")); err != nil {
 				r.Harness = "cannot send the request: " + err.Error()
 				return
 			}
 			time.Sleep(100 * time.Millisecond) // let the proxy accept the connection and read what there is
-			rest := []byte("X-Verif-Case: " + id + "\r\n\r\n")
+			var rest bytes.Buffer
+			for _, kv := range req.Header[1:] {
+				fmt.Fprintf(&rest, "%s: %s\r\n", kv.K, kv.V)
+			}
+			if reqBody != nil {
+				fmt.Fprintf(&rest, "Content-Length: %d\r\n", len(reqBody))
+			}
+			rest.WriteString("\r\n")
+			rest.Write(reqBody)
 			go func() {
 				time.Sleep(time.Duration(c.ReleaseMs) * time.Millisecond) // ~ after the signal: it is sent right below
 				// Whether the proxy had already accepted this connection when the signal arrived cannot
 				// be observed from outside (a connection still in the listen backlog is reset when the
 				// listener closes, and that request was never "in flight" inside Helios). A connection
 				// that is closed without any response is therefore not judged; a response is.
-				if _, err := cc.C.Write(rest); err != nil {
+				if _, err := cc.C.Write(rest.Bytes()); err != nil {
 					readDone <- notJudged
 					return
 				}
-				o, resp, e := cc.ReadHead("GET", time.Duration(c.ShutdownS+3)*time.Second)
+				o, resp, e := cc.ReadHead(method, time.Duration(c.ShutdownS+3)*time.Second)
 				if e != nil {
 					readDone <- notJudged
 					return
@@ -395,17 +540,19 @@ func runL3(t testing.TB, c l3Case) (r l3Result) {
 		}
 		if c.Point == "half-sent-head" {
 			// the client goroutine above does the rest
-		} else if c.Point == "mid-body" {
+		} else if c.Point == "mid-body" || c.Point == "after-head" {
 			var e error
-			o, resp, e := cc.ReadHead("GET", stepBudget)
+			o, resp, e := cc.ReadHead(method, stepBudget)
 			if e != nil {
 				r.Harness = "no response head before the signal: " + e.Error()
 				return
 			}
-			prefix, e = lab.ReadN(resp, c.ReadFirst)
-			if e != nil {
-				r.Harness = "first body part not received before the signal: " + e.Error()
-				return
+			if c.Point == "mid-body" {
+				prefix, e = lab.ReadN(resp, c.ReadFirst)
+				if e != nil {
+					r.Harness = "first body part not received before the signal: " + e.Error()
+					return
+				}
 			}
 			out = o
 			go func() {
@@ -414,7 +561,7 @@ func runL3(t testing.TB, c l3Case) (r l3Result) {
 			}()
 		} else {
 			go func() {
-				o, resp, e := cc.ReadHead("GET", time.Duration(c.ShutdownS+3)*time.Second)
+				o, resp, e := cc.ReadHead(method, time.Duration(c.ShutdownS+3)*time.Second)
 				if e != nil {
 					readDone <- "the client received no response: " + e.Error()
 					return
@@ -446,7 +593,7 @@ func runL3(t testing.TB, c l3Case) (r l3Result) {
 			if v == notJudged {
 				r.NotJudged = true
 			} else if v != "" {
-				r.Viol = fmt.Sprintf("request in flight (%s) when SIG%s arrived, backend finished it %d ms later (shutdown timeout %d s): %s", c.Point, c.Signal, c.ReleaseMs, c.ShutdownS, v)
+				r.Viol = fmt.Sprintf("request in flight (%s; %s; response: %s) when SIG%s arrived, backend finished it %d ms later (shutdown timeout %d s): %s", c.Point, c.requestText(), c.responseText(), c.Signal, c.ReleaseMs, c.ShutdownS, v)
 			}
 		case <-time.After(time.Duration(c.ShutdownS+4) * time.Second):
 			r.Viol = "the client of the in-flight request neither received the response nor an error"
@@ -498,12 +645,15 @@ func judgeResponse(c l3Case, out *lab.RawResponse, body []byte) string {
 
 func TestC19Signals(t *testing.T) {
 	sub := lab.Sub(l3Name, "rapid: the real helios binary (timeouts.shutdown 2-4 s, one scripted raw TCP backend, optional metrics listener, every further optional feature on or off by draw with the values of the shipped sample file - rate_limit, circuit_breaker, passive checks, websocket_pool, admin_api (1 in 4), a plugin chain [logging, request-id, headers] -, active checks off / interval 2-3 s answered / interval 10 s timeout 9 s with probes that hang in the backend) receives SIGTERM or SIGINT "+
-		"at a drawn point: no request in flight; a request of which only the request line and one header field have been sent (the rest of the head follows 0-500 ms after the signal, the backend answers at once); a request that reached the backend which has not answered (released 0-(timeout-1) s after the signal); a response of whose first body part (1 B-64 KiB) the client has read everything the proxy must have passed on (all of it when chunked, all but 8 KiB when CL-framed) while the backend waits on a barrier before part 2 (1 B-200 kB; CL or chunked; status 200/201/404); "+
+		"at a drawn point: no request in flight; a request of which only the request line and one header field have been sent (the rest of the head follows 0-500 ms after the signal, the backend answers at once); a request that reached the backend which has not answered (released 0-(timeout-1) s after the signal); a response of whose first body part (1 B-64 KiB) the client has read everything the proxy must have passed on (all of it when chunked or close-delimited, all but 8 KiB when CL-framed) while the backend waits on a barrier before part 2 (1 B-200 kB, sent in 1-5 writes; CL, chunked or close-delimited; status 200/201/404); a chunked / close-delimited response of which the client has read the head while the backend has not produced a body byte yet; "+
+		"the exchange in flight looks like what real services send, by draw: response media type (half of the cases one that announces a piece-by-piece response - text/event-stream with and without parameters, ndjson, stream+json, grpc-web, multipart/x-mixed-replace, MPEG-TS -, otherwise octet-stream / none / text / JSON / HTML / JPEG / PDF), further response fields (no-cache, SSE proxy hints, download, cookie, long-lived cache), the request (bare GET, a browser EventSource's GET, an API GET, POST with Content-Length 0); every scripted response is finite; "+
 		"1 in 7 requests is never finished by the backend (outlasts the shutdown timeout); 1 in 3 cases sends a second SIGTERM/SIGINT 0-100 ms later, during the shutdown, and in two of every six cases a second signal arrives by construction while the request is still being drained (backend finishes >= 200 ms after the first signal or never), and in one of every six the process has been up for longer than its whole shutdown timeout (2 s + 0.1-1 s) when the signal arrives, the request being finished 20-1000 ms later; "+
 		"oracle: the in-flight request is received complete and exact, the process exits within shutdown timeout + 2 s with status 0 (status not asserted for the outlasting request) and no panic trace, the backend sees nothing after the exit; non-trivial = a request is in flight when the signal arrives")
 	sub.NontrivialFloor(0.60)
 	sub.Floor("second-signal-during-drain", 0.25)
 	sub.Floor("uptime-beyond-shutdown-timeout", 0.10)
+	sub.Floor("stream-typed-response,finishes-inside-timeout", 0.25)
+	lab.Assume("L3: requests with a body are not drawn (open finding C01/request-body-close-race of net/http truncates such exchanges now and then, shutdown or not)")
 	lab.Assume("L3: loopback only; a request counts as in flight once the scripted backend has parsed it; 'remaining duration below the shutdown timeout' is generated with a 1 s margin; the exit bound is shutdown timeout + 2 s of real time (normal: milliseconds)")
 	const par = 6
 	// 4 / 50 batches x par binaries: 24 quick, 300 thorough (before sharding)
@@ -539,6 +689,25 @@ func TestC19Signals(t *testing.T) {
 			labels := []string{"signal=" + c.Signal, "point=" + c.Point, fmt.Sprintf("shutdown=%ds", c.ShutdownS)}
 			if c.Over {
 				labels = append(labels, "request-outlasts-timeout")
+			}
+			if c.Point != "idle" {
+				mt := c.CType
+				if i := strings.IndexByte(mt, ';'); i >= 0 {
+					mt = mt[:i]
+				}
+				if mt == "" {
+					mt = "application/octet-stream"
+				}
+				labels = append(labels, "framing="+c.Framing, "media-type="+mt, "request="+c.requestKind(), fmt.Sprintf("part2-writes=%d", len(c.parts())-1))
+				if c.RespDress != "" {
+					labels = append(labels, "response-dress="+c.RespDress)
+				}
+				if streamTyped(c.CType) {
+					labels = append(labels, "stream-typed-response")
+					if !c.Over {
+						labels = append(labels, "stream-typed-response,finishes-inside-timeout")
+					}
+				}
 			}
 			if c.Point == "half-sent-head" {
 				if res[i].NotJudged {
@@ -590,7 +759,8 @@ func TestC19Signals(t *testing.T) {
 			case r.Harness != "":
 				rt.Fatalf("harness: %s\ncase %+v\nlog:\n%s", r.Harness, c, r.Log)
 			case r.Viol != "":
-				rt.Fatalf("%s\ncase %+v\nexit status %d, %v after the signal\nlog:\n%s", r.Viol, c, r.ExitCode, r.ExitAfter.Round(time.Millisecond), r.Log)
+				// the one-line summary is repeated at the end: the driver shows the tail of a shard's output
+				rt.Fatalf("%s\ncase %+v\nexit status %d, %v after the signal\nlog:\n%s\nviolation in %s: %s", r.Viol, c, r.ExitCode, r.ExitAfter.Round(time.Millisecond), r.Log, l3Name, r.Viol)
 			}
 		}
 	})
